@@ -178,10 +178,33 @@ func CallMethod(obj interface{}, methodName string, args ...interface{}) (interf
 			methodName, methodType.NumIn(), len(args))
 	}
 
-	// Prepare arguments
+	// Prepare arguments. reflect.Call panics on a null (invalid) or wrongly
+	// typed argument just as it does on a wrong count, so each one is checked
+	// against the parameter it will be bound to and rejected with an error.
 	methodArgs := make([]reflect.Value, len(args))
 	for i, arg := range args {
-		methodArgs[i] = reflect.ValueOf(arg)
+		var paramType reflect.Type
+		if methodType.IsVariadic() && i >= methodType.NumIn()-1 {
+			paramType = methodType.In(methodType.NumIn() - 1).Elem()
+		} else {
+			paramType = methodType.In(i)
+		}
+
+		if arg == nil {
+			switch paramType.Kind() {
+			case reflect.Interface, reflect.Ptr, reflect.Map, reflect.Slice, reflect.Func, reflect.Chan:
+				methodArgs[i] = reflect.Zero(paramType)
+				continue
+			}
+			return nil, fmt.Errorf("method %s: argument %d must not be null", methodName, i+1)
+		}
+
+		argValue := reflect.ValueOf(arg)
+		if !argValue.Type().AssignableTo(paramType) {
+			return nil, fmt.Errorf("method %s: argument %d has type %s, expected %s",
+				methodName, i+1, argValue.Type(), paramType)
+		}
+		methodArgs[i] = argValue
 	}
 
 	// Call the method
